@@ -254,6 +254,54 @@ func vmFieldCoverage(w *World, fn *ssa.Function, ct *Contract) []*Obligation {
 	return out
 }
 
+// genPure verifies the frame part of the thin call-site contracts: every vm
+// function that VM.Run calls by a contract declared pure is itself checked
+// to write nothing that existed before the call.
+var pureGenCache []*Obligation
+
+func genPure(w *World) []*Obligation {
+	if pureGenCache != nil {
+		return pureGenCache
+	}
+	var names []string
+	for n, c := range w.Contracts {
+		if c.Pure && strings.HasPrefix(n, "vm.") {
+			names = append(names, n)
+		}
+	}
+	sort.Strings(names)
+	saved := map[string]bool{}
+	for k, v := range w.forceInline {
+		saved[k] = v
+	}
+	var out []*Obligation
+	for _, n := range names {
+		fn := w.Func(n)
+		if fn == nil {
+			out = append(out, missingObl(n+"/frame:pure", "function not found"))
+			continue
+		}
+		e := NewExec(w)
+		e.maxSteps = 400000
+		// the function under check is executed; its callees keep their contracts
+		w.forceInline[n] = true
+		e.VerifyFunc(fn, w.Contracts[n], nil)
+		delete(w.forceInline, n)
+		for _, o := range e.obls {
+			if strings.HasSuffix(o.Name, "/frame:pure") || strings.HasSuffix(o.Name, "/pre-sat") {
+				out = append(out, o)
+			}
+		}
+	}
+	for k := range w.forceInline {
+		if !saved[k] {
+			delete(w.forceInline, k)
+		}
+	}
+	pureGenCache = out
+	return out
+}
+
 func regProp(id, level, expl string, pats []string, extra func(w *World, res *CheckResult)) {
 	registerProp(&propDef{id: id, level: level, expl: expl, replay: vmReplay, gen: func(w *World, res *CheckResult) {
 		g := genRun(w)
@@ -271,6 +319,9 @@ func init() {
 		[]string{`^vm\.VM\.Run/loop:0/entry\[`, `^vm\.VM\.Run/fields-reset`, `reslice-within-len`, `^vm\.VM\.Run/pre-sat$`, `^vm\.VM\.Run/loop:0/inv-sat$`}, nil)
 	regProp("C06", "proof", "ghost counter galloc (collection elements created by this run, incremented by the engine at every MakeSlice/MapUpdate of a language-level collection in VM.Run and makeRange) is tied to vm.memory by the loop invariant memory == galloc < limit for every opcode case; a budget refusal is justified only when the elements needed reach the limit; makeRange creates exactly max(0, max-min+1) elements",
 		[]string{`inv-(init|pres)\[(galloc|budget|mem-lo|static|count|pops|i)\]`, `refused-only-if-needed`, `^vm\.makeRange/`, `^vm\.VM\.Run/pre-sat$`, `inv-sat$`, `/cover$`}, nil)
+	pureExtra := func(w *World, res *CheckResult) {
+		res.Obls = append(res.Obls, genPure(w)...)
+	}
 	regProp("C08", "proof", "write frame of the interpreter loop: for every opcode case (completed iterations and iterations that fail midway) every memory cell of an object that existed before the run, other than the VM value and its private stack/scopes arrays, is unchanged; scope maps written by OpStore/OpInc are created by this run",
-		[]string{`/frame$`, `/frame-at-panic$`, `inv-(init|pres)\[(stack-own|scopes-own|scopes-fresh|prog|stack)\]`, `^vm\.VM\.Run/pre-sat$`, `inv-sat$`}, nil)
+		[]string{`/frame$`, `/frame-at-panic$`, `inv-(init|pres)\[(stack-own|scopes-own|scopes-fresh|prog|stack)\]`, `^vm\.VM\.Run/pre-sat$`, `inv-sat$`}, pureExtra)
 }
